@@ -85,6 +85,7 @@ def bounds(tier, seed):
         "registers": ["bent3", "zig4"] + (["chain5", "ladder6", "chain8"] if tier == "thorough" else []),
         "pi": "all of S_N for N<=4 (quick: S_3 and the generators+reversal+shift of S_4); generators for larger N",
         "optimiser_answers": "all of S_N for N=3 (quick) / N<=4 (thorough); generators for larger N; plus ordering off",
+        "evaluation_times": "occupation and correlation matrix at exactly N times (N = number of atoms), compared at 0.5 and 1.0",
         "observable_sets": ["occupation, correlation_matrix, energy, bitstrings(1 shot, exact distribution for N=3)", "+ state (ordering must switch off)"],
     }
 
@@ -103,10 +104,22 @@ def cases(tier, seed):
                 yield {"shape": shape, "coords": coords, "kind": kind, "pi": pi, "full_p": full_p, "tier": tier}
 
 
-def _observables(with_state, shots):
+def _times(n):
+    """exactly as many evaluation times as there are atoms (a time axis as long as the atom axis), always containing 0.5 and 1.0"""
+    ts = [0.5, 1.0]
+    k = 1
+    while len(ts) < n:
+        t = k / (2.0 * n)
+        if all(abs(t - u) > 1e-9 for u in ts):
+            ts.append(t)
+        k += 1
+    return sorted(ts)
+
+
+def _observables(with_state, shots, n=2):
     import emu_mps as m
 
-    obs = [m.Occupation(evaluation_times=[0.5, 1.0]), m.CorrelationMatrix(evaluation_times=[1.0]), m.Energy(evaluation_times=[0.5, 1.0])]
+    obs = [m.Occupation(evaluation_times=_times(n)), m.CorrelationMatrix(evaluation_times=_times(n)), m.Energy(evaluation_times=[0.5, 1.0])]
     # a second instance of the per-atom observables under a tag suffix: it has to be un-permuted exactly like the plain one
     obs += [m.Occupation(evaluation_times=[1.0], tag_suffix="again"), m.CorrelationMatrix(evaluation_times=[1.0], tag_suffix="again")]
     if shots:
@@ -127,9 +140,9 @@ def _run(spec, mask, p, with_state=False, shots=0, dt=10, n_traj=1):
     with seams.pulser_np_random(**script):
         if p is not None:
             with seams.optimiser_answer(p):
-                res, _ = runner.run_mps(spec, cfg, observables=_observables(with_state, shots), noise=noise)
+                res, _ = runner.run_mps(spec, cfg, observables=_observables(with_state, shots, len(spec["coords"])), noise=noise)
         else:
-            res, _ = runner.run_mps(spec, cfg, observables=_observables(with_state, shots), noise=noise)
+            res, _ = runner.run_mps(spec, cfg, observables=_observables(with_state, shots, len(spec["coords"])), noise=noise)
     return res
 
 
@@ -142,8 +155,10 @@ def _by_name(res):
         v = runner.to_np(runner.get_at(res, "occupation", t)).astype(float)
         occ[t] = {q: float(v[i]) for i, q in enumerate(order)}
     c = runner.to_np(runner.get_at(res, "correlation_matrix", 1.0)).astype(float)
+    c05 = runner.to_np(runner.get_at(res, "correlation_matrix", 0.5)).astype(float)
     out["occ"] = occ
     out["corr"] = {(a, b): float(c[i, j]) for i, a in enumerate(order) for j, b in enumerate(order)}
+    out["corr"].update({(a, b, 0.5): float(c05[i, j]) for i, a in enumerate(order) for j, b in enumerate(order)})
     out["energy"] = {t: float(np.real(runner.to_np(runner.get_at(res, "energy", t)))) for t in (0.5, 1.0)}
     v2 = runner.to_np(runner.get_at(res, "occupation_again", 1.0)).astype(float)
     c2 = runner.to_np(runner.get_at(res, "correlation_matrix_again", 1.0)).astype(float)
@@ -194,7 +209,7 @@ def run_case(case):
         return result(False, sig=f"raises|base|{type(e).__name__}", msg=f"{label0}: base run raised {type(e).__name__}: {e}", outcome="raise")
     # anchor: the base run against the dense reference (noiseless bases only; the bad-atom base is C25's subject)
     if n <= 4 and mask0 is None and pi == list(range(n)):
-        ref = runner.Ref(spec0, {"dt": 10, "eval": [0.5, 1.0]}, slm_rule="mid")
+        ref = runner.Ref(spec0, {"dt": 10, "eval": _times(n)}, slm_rule="mid")
         o = ref.observables(1.0)["occupation"]
         got = np.array([base["occ"][1.0][q] for q in spec0["ids"]])
         if np.abs(got - o).max() > tol + 1e-6:
